@@ -74,6 +74,14 @@ Proof.
 Qed.
 Print Assumptions C18_log_warper.
 
+(* a constant array (all finite labels equal): the formula in the source today does not divide by the zero range; every label is
+   mapped to 1/2, the value of the best label, and un-warping returns the label *)
+Theorem C18_log_warper_constant_labels : forall o mx : R,
+  (match log_warp_constant_fn with Some f => (f o mx mx = 1 / 2)%R | None => False end) /\
+  (log_unwarp_fn o mx mx (1 / 2) = mx)%R.
+Proof. intros o mx. split; [apply log_warp_constant_is_half|apply log_unwarp_constant]. Qed.
+Print Assumptions C18_log_warper_constant_labels.
+
 (* ZScoreLabels / NormalizeLabels are affine with a positive slope *)
 Theorem C18_affine_components : forall a b x y, 0 < a -> (x < y <-> a * x + b < a * y + b).
 Proof. exact affine_order. Qed.
